@@ -655,6 +655,7 @@ PROBES: T.List[T.Tuple[str, T.Dict[str, T.Any], T.Tuple[str, ...]]] = [
     ("x = f'''@a@\\t'''\n", {}, ('multiline-string-simplified-changes-escapes',)),
     ("x = '''a\\'''\n", {}, ('multiline-string-simplified-changes-escapes',)),
     ("x = f'''@\\x41@'''\n", {}, ('multiline-string-simplified-changes-escapes',)),
+    ("x = f'''a\\tb'''\n", {}, ('multiline-string-simplified-changes-escapes',)),
     ("x = files([['a.c']])\n", {}, ('files-nested-array-flattened-one-level-per-pass',)),
     ("x = files([[['a.c', 'b.c']]])\n", {}, ('files-nested-array-flattened-one-level-per-pass',)),
     ("x = files(['b.c', 'a.c'])\n", {'sort_files': True}, ('files-array-sorted-only-on-second-pass',)),
